@@ -75,6 +75,17 @@ def local_callee_bodies(F, cs, crate=None):
                 out.append(b)
         if out:
             break
+    if not out and cs.callee.get("trait") and not cs.callee.get("resolved"):
+        # a method of a workspace trait called on a generic receiver: when the trait has exactly one implementor in the workspace (a
+        # private seam trait), that implementor's method is what runs
+        tr = cs.callee["trait"]
+        impls = [i for i in F.impls if i.get("trait") == tr and not i["crate"].endswith("#test")]
+        if len(impls) == 1 and tr.startswith("metrique"):
+            for it in impls[0]["items"]:
+                if it.get("name") == cs.callee.get("name"):
+                    b = F.bodies.get((impls[0]["crate"], it.get("uid") or it["def"]))
+                    if b is not None:
+                        out.append(b)
     return out
 
 
